@@ -188,7 +188,16 @@ def close_pool():
         _POOL = None
 
 
-def pmap(fn, items, chunksize=None):
+class Hang(Exception):
+    """exploration did not terminate within the watchdog: the code under test loops (every harness
+    is bounded by construction: settle budgets, finite enumerations)"""
+
+
+WATCHDOG = {"quick": 420.0, "thorough": 4 * 3600.0}
+TIER = "quick"
+
+
+def pmap(fn, items, chunksize=None, timeout=None):
     """ordered parallel map over a list with the forked pool (fn must be a module-level
     function; workers inherit module state set up before the first call)"""
     items = list(items)
@@ -198,7 +207,14 @@ def pmap(fn, items, chunksize=None):
         return [fn(x) for x in items]
     if chunksize is None:
         chunksize = max(1, min(256, len(items) // (NPROC * 8) or 1))
-    return pool().map(fn, items, chunksize)
+    if timeout is None:
+        timeout = float(os.environ.get("VERIF_WATCHDOG", WATCHDOG[TIER]))
+    res = pool().map_async(fn, items, chunksize)
+    try:
+        return res.get(timeout)
+    except multiprocessing.TimeoutError:
+        close_pool()
+        raise Hang(f"{len(items)} work items of {getattr(fn, '__name__', fn)} did not finish within {timeout:.0f} s") from None
 
 
 class Samples:
